@@ -305,25 +305,37 @@ def run_oneshot(ctx, cfg: gen.Config, data: bytes) -> tuple[int, int, Any]:
 
 
 def _pickle_resource_bomb(data: bytes) -> bool:
-    """pickle's own documented unsafety (not the library's): opcodes that make the unpickler allocate by a number taken from
-    the input (memo index, announced length) far beyond the input size. Such inputs are not fed to pickle-based configurations."""
-    import pickletools
-
-    for start in {0, *(i + 1 for i, b in enumerate(data) if b == 0x2E)}:  # every pickle in the stream
-        try:
-            for op, arg, _pos in pickletools.genops(data[start:]):
-                if op.name in ("LONG_BINPUT", "LONG_BINGET", "PUT", "GET", "BINPUT", "BINGET") and isinstance(arg, int) and arg > 100_000:
-                    return True
-                if op.name == "FRAME" and isinstance(arg, int) and arg > 10 * len(data) + 1000:
-                    return True
-        except Exception:  # noqa: BLE001
-            pass
+    """pickle's own documented unsafety (not the library's): memo opcodes make the unpickler size its memo table by an index
+    taken from the input (LONG_BINPUT 0x63a9541b -> a 13 GB table, minutes of CPU). After a parse error the stream is re-parsed
+    from arbitrary offsets, so the screen is purely lexical and conservative: any 'r'/'j' opcode byte followed by a 32-bit value
+    > 100000, or 'p'/'g' followed by six or more digits, disqualifies the input for pickle-based configurations."""
+    for i, b in enumerate(data):
+        if b in (0x72, 0x6A) and i + 5 <= len(data) and int.from_bytes(data[i + 1 : i + 5], "little") > 100_000:
+            return True
+        if b in (0x70, 0x67) and data[i + 1 : i + 7].isdigit() and len(data[i + 1 : i + 7]) == 6:
+            return True
     return False
+
+
+def _maybe_unwrap(cfg: gen.Config, data: bytes) -> bytes:
+    """inner bytes as the pickle layer could see them (best effort) for wrapped pickle configurations"""
+    fam = _fam(cfg)
+    out = data
+    try:
+        if fam == "b64":
+            out = data + b"".join(base64.urlsafe_b64decode(part + b"=" * (-len(part) % 4)) for part in data.replace(b"\r\n", b"\n").split(b"\n") if part)
+        elif fam == "zlib":
+            out = data + zlib.decompressobj().decompress(data)
+        elif fam == "bz2":
+            out = data + bz2.BZ2Decompressor().decompress(data)
+    except Exception:  # noqa: BLE001
+        pass
+    return out
 
 
 def one_input(ctx, cfg: gen.Config, label: str, data: bytes, rng: random.Random, tag: Any, mutated: bool, limit: int | None = None) -> None:
     fam = _fam(cfg)
-    if (cfg.inner_pickle or fam == "picklefile") and fam not in ("b64", "zlib", "bz2") and _pickle_resource_bomb(data):
+    if (cfg.inner_pickle or fam == "picklefile") and _pickle_resource_bomb(_maybe_unwrap(cfg, data)):
         ctx.count("pickle_resource_bombs_skipped")
         return
     modes = ["oneshot", "copy"] + (["buffered"] if cfg.is_buffered() else [])
